@@ -21,7 +21,7 @@ import functools
 
 from . import serialsim
 
-FATAL_EXC = ("SerialException", "SerialTimeoutException", "PortNotOpenError", "OSError")
+FATAL_EXC = ("SerialException", "SerialTimeoutException", "PortNotOpenError", "OSError") + serialsim.OS_ERRNO_EXC
 
 # name -> failure value (what the method documents / returns when it cannot do its job)
 REQUESTS = {
@@ -47,7 +47,31 @@ IGNORED_NAMES = ("rb", "r", "bl")                        # command()/query() ign
 
 COMMAND_TEXTS = ["SM,100,10,-10", "EM,1,1", "SP,1,100", "TP", "CS", "SC,4,12000", "SR,60000",
                  "PO,B,3,0", "PD,B,3,0", "HM,1000", "XM,100,5,5", "LM,85899346,10,0,85899346,-10,0",
-                 "T3,1,0,0,0,0,0,0,3", "SL,7,3", "CU,50,0", "S2,0,4", " SM,1,0,0 ", "\tTP\t", "EM,0,0\r"]
+                 "T3,1,0,0,0,0,0,0,3", "SL,7,3", "CU,50,0", "S2,0,4", " SM,1,0,0 ", "\tTP\t", "EM,0,0\r",
+                 "ES", "ES,1", " ES\r", "SE,1,512", "TD,1,0,0,0,0,0,0,0,0,0", "LT,100,1000,0,1000,0",
+                 "L3,1,0,0,0,0,0,0", "PC,100,200", "PG,1", "NI", "ND", "SP,0", "EM,0,0", "SC,10,65535", "CU,2,0"]
+# every request name of the EBB command set: on an object that is expected to be blocked NO text may reach
+# the port, whatever it says (stop / abort / status / reset commands are where a guard is tempting to relax)
+ALL_EBB_NAMES = ["A", "AC", "BL", "C", "CK", "CN", "CS", "CU", "EM", "ES", "HM", "I", "L3", "LM", "LT", "MR", "MW",
+                 "ND", "NI", "O", "PC", "PD", "PG", "PI", "PO", "QB", "QC", "QE", "QG", "QL", "QM", "QN", "QP",
+                 "QR", "QS", "QT", "QU", "R", "RB", "S2", "SC", "SE", "SL", "SM", "SN", "SP", "SR", "ST", "T",
+                 "T3", "TD", "TP", "TR", "V", "XM"]
+
+
+def any_request_text(rng):
+    name = rng.choice(ALL_EBB_NAMES)
+    k = rng.randrange(6)
+    if k == 0:
+        name = name.lower()
+    args = ",".join(str(rng.choice((0, 1, 2, 10, 255, -5, 1000))) for _ in range(rng.choice((0, 0, 1, 2, 3))))
+    text = name + ("," + args if args else "")
+    if k == 1:
+        text = " " + text + " "
+    elif k == 2:
+        text += "\r"
+    elif k == 3:
+        text = "\t" + text
+    return text
 # the reset family (I/O errors after them are deliberately ignored - the latch is not); only used for
 # requests on objects that are expected to be blocked, because on a healthy object they reset the board
 RESET_TEXTS = ["BL", "RB", "R", "bl", " BL ", "rb"]
@@ -61,8 +85,12 @@ def gen_args(rng, name, reset_ok=False):
     if name == "command":
         if reset_ok and rng.random() < 0.3:
             return [rng.choice(RESET_TEXTS)]
+        if reset_ok and rng.random() < 0.5:
+            return [any_request_text(rng)]
         return [rng.choice(COMMAND_TEXTS)]
     if name == "query":
+        if reset_ok and rng.random() < 0.5:
+            return [any_request_text(rng)]
         return [rng.choice(QUERY_TEXTS)]
     if name == "write_nickname":
         return [rng.choice(["Ada", "AxiDraw 7", "  padded  ", "x" * 16, "", "north-east", "MyQT,1", "ST,x"])]
@@ -198,10 +226,15 @@ def monitored_class():
     for name in dir(base):
         if name.startswith("_"):
             continue
-        attr = getattr(base, name)
-        if callable(attr):
-            body[name] = wrap(name, attr)
-            public.append(name)
+        import inspect
+        static = inspect.getattr_static(base, name)
+        if not inspect.isfunction(static):
+            # classmethods, staticmethods, properties, class constants and nested classes are not
+            # requests on an object: left exactly as inherited (wrapping a classmethod's bound form
+            # as if it were an instance method would be a harness fault, not an observation)
+            continue
+        body[name] = wrap(name, static)
+        public.append(name)
 
     def __setattr__(self, name, value):
         mon = self.__dict__.get("_mon")
@@ -392,7 +425,8 @@ def check_step(world, step, top, idx, first_req):
 
     if "raised" in top:
         exc = top["raised"]
-        if is_request and name in OWN_IO and type(exc).__name__ in ("OSError",) and not blocked:
+        if is_request and name in OWN_IO and isinstance(exc, OSError) \
+                and not isinstance(exc, serialsim.serial.SerialException) and not blocked:
             # reboot()/bootload() contain the pyserial exception family only; a bare OSError from
             # write() is not something a pyserial port raises (pyserial wraps it), so it is logged
             # as an observation and is not a verdict
